@@ -82,7 +82,7 @@ CLAIMS = {
    ref="6/C09"),
  "C10": dict(
    technique="runtime monitoring: differential oracle interpret(document) vs interpret(code only) on canonical symbol tables; per-namespace reference sessions compared with the sub-interpreters' symbol tables; static prose corpus swept by snippet x position and by ordered snippet pairs",
-   text="Every prose snippet of a static 40-element corpus at every position of a program, every ordered pair of adjacent snippets, and seeded interleavings of generated programs with prose must leave the final variables exactly as the code alone leaves them; statements distributed over named fences must populate one isolated namespace per name (split fences share it), leak nothing into the unnamed program, and a failing statement inside a named fence must not stop the rest of the document.",
+   text="Every prose snippet of a static 45-element corpus at every position of a program, every ordered pair of adjacent snippets, and seeded interleavings of generated programs with prose must leave the final variables exactly as the code alone leaves them; statements distributed over named fences must populate one isolated namespace per name (split fences share it), leak nothing into the unnamed program, and a failing statement inside a named fence must not stop the rest of the document.",
    note="The prose corpus is static and hand written from the Mechdown documentation; code blocks and prose are separated by blank lines.",
    ref="6/C10"),
  "C20": dict(
